@@ -1,12 +1,13 @@
 import RumaModel.Driver.HtmlCodec
 import RumaModel.Spec.HtmlAllow
 import RumaModel.Generated.C14
+import RumaModel.Lemmas.HtmlTables
 namespace Ruma.Driver.C14
 open Ruma Ruma.Proto Ruma.Html Ruma.Driver.Html
 
 /-- The static lists the model runs with: extracted from the implementation on this run (T1);
 class patterns are not observable and come from the spec. -/
-def implLists : Lists := Generated.C14.lists Spec.HtmlAllow.classes
+def implLists : Lists := Lemmas.HtmlTables.implLists
 
 def handle (toks : List String) : String :=
   match toks with
